@@ -113,7 +113,7 @@ int main(int argc, char *argv[])
     }
     fprintf(res, "| ");
     for (size_t i = 0; i < texts.size(); i++) { fprintf(res, "%s\t", texts[i].c_str()); }
-    fprintf(res, "| ");
+    fprintf(res, " | ");
     if (texts.size() == 1)
     {
       int s2 = assemble(cpu, addr, texts[0].c_str(), b2, contig2);
